@@ -21,8 +21,9 @@ func init() { modes["race"] = modeRace }
 type raceIDKey struct{}
 
 type yieldReader struct {
-	r io.Reader
-	n *int64
+	r        io.Reader
+	n        *int64
+	closeErr error
 }
 
 func (y *yieldReader) Read(p []byte) (int, error) {
@@ -35,7 +36,7 @@ func (y *yieldReader) Read(p []byte) (int, error) {
 	return y.r.Read(p)
 }
 
-func (y *yieldReader) Close() error { return nil }
+func (y *yieldReader) Close() error { return y.closeErr }
 
 // collectTags walks a value and gathers every string and integer it holds.
 func collectTags(v reflect.Value, strs map[string]bool, ints map[int64]bool, depth int) {
@@ -269,6 +270,11 @@ func modeRace(c *Ctx) {
 			}
 			if b := v.FieldByName("Body"); b.IsValid() && (b.Type() == readerType || b.Type() == readCloserType) {
 				yr := &yieldReader{r: strings.NewReader(fmt.Sprintf("req%d", id)), n: &yields}
+				if id%3 != 1 {
+					// closing the body fails, with a text of this request's own: the
+					// generated error paths (the shared LogError hook) run concurrently too
+					yr.closeErr = fmt.Errorf("closing the body of req%d failed", id)
+				}
 				if b.Type() == readerType {
 					b.Set(reflect.ValueOf(io.Reader(yr)))
 				} else {
